@@ -71,7 +71,20 @@ def run(ck: Check):
             configs.append(((arg, w["id"]), v, knobs))
             if knobs is None and not arg.startswith("bigger"):
                 lemma_pairs.append((w, v))
-    superset_lemma(ck, sorted(lemma_pairs, key=lambda bv: sum(bv[0]["bound"].values()))[: (2 if not thorough else 10)])
+    # the lemma is about the spec's mapspace, not about the mapper: check it on small dedicated worlds
+    small_pairs = []
+    lrng = random.Random(ck.seed + 181)
+    for i, (kind, b) in enumerate((("reduce", [4, 2]), ("matvec", [2, 4]), ("elementwise", [2, 2]), ("matmul", [2, 2, 2]))):
+        if not thorough and i >= 2:
+            break
+        lw = mc.gen_microspec(lrng, 800 + i, n_mem=2, kind=kind, bounds=b)
+        inner = [c for c in lw["level"] if lw["level"][c] > 0][0]
+        lw["keep"][inner] = [lw["tensors"][0]]
+        lw["maykeep"][inner] = [lw["tensors"][-1]]
+        for arg, v, knobs in relaxations(lw, lrng):
+            if knobs is None and not arg.startswith("bigger"):
+                small_pairs.append((lw, v))
+    superset_lemma(ck, small_pairs)
     obs = cc.observe(ck, configs)
     traces, cfg_by_step = [], {}
     for w in worlds:
